@@ -2,6 +2,7 @@
 import os
 import seqlib
 import fscklib
+import crashlib
 import vlib
 from vlib import Break
 
@@ -35,6 +36,12 @@ def run(ctx):
                                        "line": mism[0].split(" :: ")[-1][:2000]})
             except Break as b:
                 ctx.breaks.append(b)
+    if ok_go:
+        # restart from the disk at ANY moment: a server started on the image of a crash point (journal written but not yet
+        # installed, installation half done, ...) must be the server after some prefix of the operations — in particular what
+        # start-up reads from the disk must be read through the journal
+        crashlib.run_crash(ctx, ok_drv, "meta", ["-workloads", "2", "-ops", "40", "-images", "200"] if ctx.tier == "thorough"
+                           else ["-workloads", "1", "-ops", "30", "-images", "70"], lambda label, key: True)
     if ok_go:
         # the slot cache underneath the inode cache: identity of the slot returned by every lookup
         cf = os.path.join(ctx.scratch, "cache.txt")
